@@ -1,6 +1,7 @@
 package errors
 
 import (
+	"errors"
 	"fmt"
 	"strings"
 
@@ -219,13 +220,14 @@ func FormatContextWindow(sql string, location models.Location, highlightLen int,
 
 // IsStructuredError checks if an error is a structured GoSQLX error
 func IsStructuredError(err error) bool {
-	_, ok := err.(*Error)
-	return ok
+	var e *Error
+	return errors.As(err, &e) && e != nil
 }
 
 // ExtractLocation extracts location information from an error
 func ExtractLocation(err error) (models.Location, bool) {
-	if structErr, ok := err.(*Error); ok {
+	var structErr *Error
+	if errors.As(err, &structErr) && structErr != nil {
 		return structErr.Location, true
 	}
 	return models.Location{}, false
@@ -233,7 +235,8 @@ func ExtractLocation(err error) (models.Location, bool) {
 
 // ExtractErrorCode extracts the error code from an error
 func ExtractErrorCode(err error) (ErrorCode, bool) {
-	if structErr, ok := err.(*Error); ok {
+	var structErr *Error
+	if errors.As(err, &structErr) && structErr != nil {
 		return structErr.Code, true
 	}
 	return "", false
